@@ -22,6 +22,7 @@ import (
 	"github.com/influxdata/influxdb/pkg/file"
 	"github.com/influxdata/influxdb/pkg/limiter"
 	"github.com/influxdata/influxdb/pkg/metrics"
+	"github.com/influxdata/influxdb/pkg/verifhook"
 	"github.com/influxdata/influxdb/query"
 	"github.com/influxdata/influxdb/tsdb"
 	"go.uber.org/zap"
@@ -781,6 +782,9 @@ func (f *FileStore) replace(oldFiles, newFiles []string, updatedFn func(r []TSMF
 			if err := os.Rename(oldName, newName); err != nil {
 				return err
 			}
+			if verifhook.Enabled {
+				verifhook.Emit("filestore.replace.renamed", newName)
+			}
 		}
 
 		// Any error after this point should result in the file being bein named
@@ -881,6 +885,9 @@ func (f *FileStore) replace(oldFiles, newFiles []string, updatedFn func(r []TSMF
 						}
 					}
 
+					if verifhook.Enabled {
+						verifhook.Emit("filestore.replace.removed", file.Path())
+					}
 					inuse = append(inuse, file)
 					continue
 				}
@@ -891,6 +898,9 @@ func (f *FileStore) replace(oldFiles, newFiles []string, updatedFn func(r []TSMF
 
 				if err := file.Remove(); err != nil {
 					return err
+				}
+				if verifhook.Enabled {
+					verifhook.Emit("filestore.replace.removed", remove)
 				}
 				break
 			}
@@ -903,6 +913,9 @@ func (f *FileStore) replace(oldFiles, newFiles []string, updatedFn func(r []TSMF
 
 	if err := file.SyncDir(f.dir); err != nil {
 		return err
+	}
+	if verifhook.Enabled {
+		verifhook.Emit("filestore.replace.synced", f.dir)
 	}
 
 	// Tell the purger about our in-use files we need to remove
